@@ -180,16 +180,31 @@ func Run(bin, cwd string, env []string, timeout time.Duration, stdin []byte, arg
 	cmd := exec.CommandContext(ctx, bin, args...)
 	cmd.Dir = cwd
 	cmd.Env = env
-	var so, se bytes.Buffer
-	cmd.Stdout = &so
-	cmd.Stderr = &se
+	// stdout and stderr go to files, not pipes: the child gets the descriptors themselves, so everything it wrote is there when it
+	// has exited. (With pipes the output is copied by goroutines of this process; on a loaded machine they can lag behind the exit,
+	// and exec's WaitDelay then cuts the output short - seen once as a report that ended in the middle of a line.)
+	var so, se *os.File
+	var ferr error
+	if so, ferr = os.CreateTemp("", "vrun-out-"); ferr == nil {
+		defer func() { so.Close(); os.Remove(so.Name()) }()
+		if se, ferr = os.CreateTemp("", "vrun-err-"); ferr == nil {
+			defer func() { se.Close(); os.Remove(se.Name()) }()
+		}
+	}
+	if ferr != nil {
+		return Result{Exit: -1, Stderr: "exec error: " + ferr.Error()}
+	}
+	cmd.Stdout = so
+	cmd.Stderr = se
 	if stdin != nil {
 		cmd.Stdin = bytes.NewReader(stdin)
 	}
-	cmd.WaitDelay = 2 * time.Second
+	cmd.WaitDelay = 30 * time.Second
 	t0 := time.Now()
 	err := cmd.Run()
-	r := Result{Stdout: so.String(), Stderr: se.String(), Dur: time.Since(t0)}
+	bo, _ := os.ReadFile(so.Name())
+	be, _ := os.ReadFile(se.Name())
+	r := Result{Stdout: string(bo), Stderr: string(be), Dur: time.Since(t0)}
 	if ctx.Err() == context.DeadlineExceeded {
 		r.TimedOut = true
 	}
